@@ -52,6 +52,6 @@ require (
 	google.golang.org/protobuf v1.30.0 // indirect
 )
 
-replace github.com/artela-network/artela-evm => /tmp/goeq_scratch
+replace github.com/artela-network/artela-evm => /repo
 
 replace github.com/bytecodealliance/wasmtime-go/v20 => github.com/artela-network/wasmtime-go/v20 v20.0.3
